@@ -78,6 +78,11 @@ _RD_SERVES = ['C02', 'C12', 'C13', 'C16', 'C18', 'C10']
 ST = 'contracts/strings.c'
 
 UNITS = [
+    U('B_Parameter_set_string', PA, 'h_Parameter_set_string', ['Parameter__set__vstr_vsz/contract_Parameter__set__vstr_vsz'],
+      ['C09', 'C10', 'C13'],
+      replace=['Parameter__isDimensionConsistent/contract_rec_Parameter__isDimensionConsistent',
+               'vf_vec_string_assign/contract_vf_vec_string_assign'],
+      unwind=9, timeout=300, level='B', bound='at most 4 strings, at most 6 explicit dimensions'),
     U('Group_read', RD, 'h_Group_read', ['Group__read/contract_Group__read'], ['C01', 'C02', 'C04', 'C13', 'C16', 'C17', 'C10', 'C18'],
       replace=['c3d__readString/contract_c3d__readString', 'c3d__readUint/contract_c3d__readUint', 'c3d__readInt/contract_c3d__readInt',
                'vf_string_assign/contract_vf_string_assign'], unwind=5, timeout=300, track_alloc=True,
